@@ -241,6 +241,11 @@ func pickU8(r *cq.RNG, inMax int) uint8 {
 }
 
 func pickFreq(r *cq.RNG) uint32 {
+	if r.Intn(4) == 0 { // every residue class that matters for the 100 Hz / 200 Hz stepping, around bases of every range
+		bases := []uint32{868100000, 1199999900, 1200000000, 1677721400, 2399999800, 2400000000, 2422000000, 2483400000, 3355443000, 3355443200, 4294967000}
+		deltas := []uint32{0, 1, 2, 50, 99, 100, 101, 150, 199, 200, 201}
+		return bases[r.Intn(len(bases))] + deltas[r.Intn(len(deltas))]
+	}
 	switch r.Intn(10) {
 	case 0:
 		return 0
